@@ -8,6 +8,8 @@ import Driver.Codec
 import Mistletoe.Props.C14
 import Mistletoe.Props.C03
 import Mistletoe.Props.C09
+import Mistletoe.Props.C19
+import Mistletoe.Props.C10_Reflow
 open Lean Mistletoe
 
 /-- op "c14.hyps": {"lines": [String]} → the hypotheses of `C14_prose_text` evaluated on these lines -/
@@ -74,11 +76,45 @@ def c09Fragment (j : Json) : Except String Json := do
     let ok := it.ok && rest.all (·.ok) && lines.all (fun l => !l.contains '\t')
     pure (Json.mkObj [("ok", Json.bool ok), ("text", Driver.str (Props.C09.quoted k lines).flatten)])
 
+mutual
+partial def forestJson : List Block.O → Json
+  | os => Json.arr (os.map nodeJson).toArray
+partial def nodeJson : Block.O → Json
+  | .node t kids => Json.mkObj [("t", Driver.str t), ("kids", forestJson kids)]
+end
+
+/-- op "c19.outline": {"headings": [[level, title], …]} → the hypotheses of `C19_toc_nested` (`isOutline`, plain titles)
+    and the forest `toForest hs` the theorem says the toc list mirrors -/
+def c19Outline (j : Json) : Except String Json := do
+  let hs ← (← Driver.getArr j "headings").toList.mapM (fun h => do
+    let a ← Driver.asArr h
+    match a.toList with
+    | [l, t] => do pure ((← l.getNat?), (← Driver.asStr t))
+    | _ => throw "heading: [level, title]")
+  let ok := Block.isOutline hs && hs.all (fun h => Block.plainTitle h.2)
+  pure (Json.mkObj [("ok", Json.bool ok), ("forest", forestJson (Block.toForest hs))])
+
+/-- op "c10.reflow": {"paras": [[[word, …] (a line), …] (a paragraph), …] (non-empty), "L": n} → the hypothesis `plainPara`
+    of `C10_prose_reflow_markdown_partial` on every paragraph, the text of the document, and the text the theorem says
+    `MarkdownRenderer(max_line_length=L)` returns -/
+def c10Reflow (j : Json) : Except String Json := do
+  let paras ← (← Driver.getArr j "paras").toList.mapM (fun p => do
+    (← Driver.asArr p).toList.mapM (fun l => do (← Driver.asArr l).toList.mapM Driver.asStr))
+  let L ← j.getObjValAs? Nat "L"
+  match paras with
+  | [] => throw "paras: empty"
+  | p :: rest =>
+    let ok := Reflow.plainPara p && rest.all Reflow.plainPara && decide (1 ≤ L)
+    pure (Json.mkObj [("ok", Json.bool ok), ("text", Driver.str (Reflow.textOf p rest)),
+                      ("expected", Driver.str (Reflow.textOf (Reflow.reflowG L p) (rest.map (Reflow.reflowG L))))])
+
 def dispatch (op : String) (j : Json) : Except String Json :=
   match op with
   | "c14.hyps" => c14Hyps j
   | "c03.fragment" => c03Fragment j
   | "c09.fragment" => c09Fragment j
+  | "c19.outline" => c19Outline j
+  | "c10.reflow" => c10Reflow j
   | "ping" => pure (Json.str "pong")
   | _ => throw s!"unknown op {op}"
 
